@@ -64,8 +64,79 @@ Proof.
   - intros [H1 H2]. split; [|exact H1]. intros c Hc. apply existsb_eqb_In. apply H2. exact Hc.
 Qed.
 
-Lemma goja_flags_refuted : exists l, valid_flags l = false /\ goja_accepts_flags l = true.
-Proof. exists [ch_u; ch_u]. split; reflexivity. Qed.
+(* the (repaired) flag loop of compileRegexp IS the specification predicate *)
+Definition seen (f : flags) (c : N) : bool :=
+  if N.eqb c ch_g then fg f else if N.eqb c ch_m then fm f else if N.eqb c ch_s then fs f
+  else if N.eqb c ch_i then fi f else if N.eqb c ch_y then fy f else if N.eqb c ch_u then fu f else false.
+Definition okc (f : flags) (c : N) : bool := existsb (N.eqb c) supported_flags && negb (seen f c).
+Definition ok_from (f : flags) (l : list N) : bool := forallb (okc f) l && nodupb l.
+Definition accepts (o : option flags) : bool := match o with Some _ => true | None => false end.
+
+Ltac kill_eqb :=
+  repeat match goal with
+  | H : N.eqb _ _ = true |- _ => apply N.eqb_eq in H; subst
+  end; try discriminate.
+
+Ltac split_eqb c :=
+  destruct (N.eqb c ch_g) eqn:?; destruct (N.eqb c ch_m) eqn:?; destruct (N.eqb c ch_s) eqn:?;
+  destruct (N.eqb c ch_i) eqn:?; destruct (N.eqb c ch_y) eqn:?; destruct (N.eqb c ch_u) eqn:?;
+  kill_eqb.
+
+(* setting the flag of character d (d one of the six) removes exactly d from the admissible characters *)
+Lemma okc_after : forall f f' d,
+  (forall c, seen f' c = seen f c || N.eqb d c) ->
+  forall t, forallb (okc f') t = forallb (okc f) t && negb (existsb (N.eqb d) t).
+Proof.
+  intros f f' d H t. induction t as [|c t IH]; simpl; [reflexivity|].
+  rewrite IH.
+  assert (E : okc f' c = okc f c && negb (N.eqb d c)).
+  { unfold okc. rewrite H.
+    destruct (existsb (N.eqb c) supported_flags); destruct (seen f c); destruct (N.eqb d c); reflexivity. }
+  rewrite E.
+  destruct (okc f c); destruct (N.eqb d c); destruct (forallb (okc f) t); destruct (existsb (N.eqb d) t); reflexivity.
+Qed.
+
+Lemma goja_loop_ok : forall l f, accepts (goja_flags_loop l f) = ok_from f l.
+Proof.
+  induction l as [|c t IH]; intro f; [reflexivity|].
+  unfold ok_from. simpl forallb. simpl nodupb. simpl goja_flags_loop.
+  unfold okc at 1. unfold seen at 1. unfold supported_flags. simpl existsb.
+  split_eqb c; simpl.
+  - (* g *) destruct (fg f) eqn:Ef; simpl; [reflexivity|]. rewrite IH. unfold ok_from.
+    rewrite (okc_after f _ ch_g).
+    + destruct (forallb (okc f) t); destruct (existsb (N.eqb ch_g) t); destruct (nodupb t); reflexivity.
+    + intro c. rewrite (N.eqb_sym ch_g c). unfold seen. simpl. split_eqb c; simpl; rewrite ?Ef, ?orb_false_r; reflexivity.
+  - (* m *) destruct (fm f) eqn:Ef; simpl; [reflexivity|]. rewrite IH. unfold ok_from.
+    rewrite (okc_after f _ ch_m).
+    + destruct (forallb (okc f) t); destruct (existsb (N.eqb ch_m) t); destruct (nodupb t); reflexivity.
+    + intro c. rewrite (N.eqb_sym ch_m c). unfold seen. simpl. split_eqb c; simpl; rewrite ?Ef, ?orb_false_r; reflexivity.
+  - (* s *) destruct (fs f) eqn:Ef; simpl; [reflexivity|]. rewrite IH. unfold ok_from.
+    rewrite (okc_after f _ ch_s).
+    + destruct (forallb (okc f) t); destruct (existsb (N.eqb ch_s) t); destruct (nodupb t); reflexivity.
+    + intro c. rewrite (N.eqb_sym ch_s c). unfold seen. simpl. split_eqb c; simpl; rewrite ?Ef, ?orb_false_r; reflexivity.
+  - (* i *) destruct (fi f) eqn:Ef; simpl; [reflexivity|]. rewrite IH. unfold ok_from.
+    rewrite (okc_after f _ ch_i).
+    + destruct (forallb (okc f) t); destruct (existsb (N.eqb ch_i) t); destruct (nodupb t); reflexivity.
+    + intro c. rewrite (N.eqb_sym ch_i c). unfold seen. simpl. split_eqb c; simpl; rewrite ?Ef, ?orb_false_r; reflexivity.
+  - (* y *) destruct (fy f) eqn:Ef; simpl; [reflexivity|]. rewrite IH. unfold ok_from.
+    rewrite (okc_after f _ ch_y).
+    + destruct (forallb (okc f) t); destruct (existsb (N.eqb ch_y) t); destruct (nodupb t); reflexivity.
+    + intro c. rewrite (N.eqb_sym ch_y c). unfold seen. simpl. split_eqb c; simpl; rewrite ?Ef, ?orb_false_r; reflexivity.
+  - (* u *) destruct (fu f) eqn:Ef; simpl; [reflexivity|]. rewrite IH. unfold ok_from.
+    rewrite (okc_after f _ ch_u).
+    + destruct (forallb (okc f) t); destruct (existsb (N.eqb ch_u) t); destruct (nodupb t); reflexivity.
+    + intro c. rewrite (N.eqb_sym ch_u c). unfold seen. simpl. split_eqb c; simpl; rewrite ?Ef, ?orb_false_r; reflexivity.
+  - (* unsupported character *) reflexivity.
+Qed.
+
+Lemma goja_flags_eq_valid_flags : forall l, goja_accepts_flags l = valid_flags l.
+Proof.
+  intro l. unfold goja_accepts_flags. change (accepts (goja_flags_loop l no_flags) = valid_flags l).
+  rewrite goja_loop_ok. unfold ok_from, valid_flags. f_equal.
+  induction l as [|c t IH]; [reflexivity|]. simpl. rewrite IH. f_equal.
+  unfold okc, seen, no_flags. simpl.
+  split_eqb c; simpl; rewrite ?andb_true_r; reflexivity.
+Qed.
 
 (** * lastIndex protocol *)
 Section Protocol.
@@ -142,3 +213,1039 @@ Section Protocol.
     destruct (li2 =? li) eqn:E2; [apply Z.eqb_eq in E2; subst; reflexivity|reflexivity].
   Qed.
 End Protocol.
+
+(* ------------------------------------------------------------------------------------------- *)
+
+
+(** * Validator soundness *)
+Lemma str_eqb_eq : forall a b, str_eqb a b = true <-> a = b.
+Proof.
+  induction a as [|x a IH]; destruct b as [|y b]; simpl; split; intro H; try reflexivity; try discriminate.
+  - apply andb_true_iff in H. destruct H as [H1 H2]. apply N.eqb_eq in H1. apply IH in H2. subst. reflexivity.
+  - inversion H; subst. rewrite N.eqb_refl. simpl. apply IH. reflexivity.
+Qed.
+
+Lemma ostr_eqb_eq : forall a b, ostr_eqb a b = true <-> a = b.
+Proof.
+  intros [a|] [b|]; simpl; split; intro H; try reflexivity; try discriminate.
+  - apply str_eqb_eq in H. subst. reflexivity.
+  - inversion H. apply str_eqb_eq. reflexivity.
+Qed.
+
+Definition located (u : bool) (s x : str) (lo hi : Z) : Prop :=
+  exists a, lo <= a /\ a + slen x <= hi /\ slice s a (a + slen x) = x /\
+            (u = true -> is_boundary s a = true /\ is_boundary s (a + slen x) = true).
+
+Lemma occurs_here_sound : forall u s c hi a,
+  (a + slen c <=? hi) && str_eqb (slice s a (a + slen c)) c &&
+  (negb u || (is_boundary s a && is_boundary s (a + slen c))) = true -> located u s c a hi.
+Proof.
+  intros u s c hi a H.
+  apply andb_true_iff in H. destruct H as [H Hb]. apply andb_true_iff in H. destruct H as [H1 H2].
+  apply Z.leb_le in H1. apply str_eqb_eq in H2.
+  exists a. split; [lia|]. split; [exact H1|]. split; [exact H2|].
+  intro Hu. subst u. simpl in Hb. apply andb_true_iff in Hb. exact Hb.
+Qed.
+
+Lemma occurs_from_sound : forall u s c hi n a,
+  occurs_from u s c hi n a = true -> located u s c a hi.
+Proof.
+  intros u s c hi n. induction n as [|n IH]; intros a H; simpl in H.
+  - apply occurs_here_sound. exact H.
+  - apply orb_true_iff in H. destruct H as [H|H].
+    + apply occurs_here_sound. exact H.
+    + apply IH in H. destruct H as [a' [H1 H2]]. exists a'. split; [lia|exact H2].
+Qed.
+
+(* the named groups object mirrors the numbered captures *)
+Definition groups_mirror (names : list (N * str)) (cs : list (option str)) (g : option (list (str * option str))) : Prop :=
+  match g with
+  | None => names = []
+  | Some l => names <> [] /\ length l = length names /\
+              forall i k nm, nth_error names i = Some (k, nm) ->
+                exists v, nth_error l i = Some (nm, v) /\ v = nth_cap cs k
+  end.
+
+Lemma forallb_combine_nth : forall (A B : Type) (f : A * B -> bool) (l1 : list A) (l2 : list B) i a,
+  length l2 = length l1 -> forallb f (combine l1 l2) = true -> nth_error l1 i = Some a ->
+  exists b, nth_error l2 i = Some b /\ f (a, b) = true.
+Proof.
+  intros A B f l1. induction l1 as [|x l1 IH]; intros l2 i a Hl Hf Hn.
+  - destruct i; discriminate.
+  - destruct l2 as [|y l2]; [discriminate|]. simpl in Hf. apply andb_true_iff in Hf. destruct Hf as [H1 H2].
+    destruct i as [|i]; simpl in *.
+    + inversion Hn; subst. exists y. split; [reflexivity|exact H1].
+    + apply (IH l2 i a); [lia|exact H2|exact Hn].
+Qed.
+
+Lemma groups_ok_sound : forall names cs g, groups_ok names cs g = true -> groups_mirror names cs g.
+Proof.
+  intros names cs g H. unfold groups_ok in H. unfold groups_mirror.
+  destruct names as [|n0 names]; destruct g as [l|]; try discriminate; try reflexivity.
+  apply andb_true_iff in H. destruct H as [Hl Hf]. apply Nat.eqb_eq in Hl.
+  split; [discriminate|]. split; [exact Hl|].
+  intros i k nm Hn.
+  destruct (forallb_combine_nth _ _ _ _ _ i (k, nm) Hl Hf Hn) as [[nm' v] [Hb Hp]].
+  apply andb_true_iff in Hp. destruct Hp as [Hp1 Hp2]. apply str_eqb_eq in Hp1. apply ostr_eqb_eq in Hp2. subst.
+  exists (nth_cap cs k). split; [exact Hb|reflexivity].
+Qed.
+
+(* raw capture ranges agree with the capture strings *)
+Definition rng_fact (u : bool) (s : str) (lo hi : Z) (c : option str) (r : option (Z * Z)) : Prop :=
+  match c with
+  | None => True
+  | Some x => exists a b, r = Some (a, b) /\ lo <= a /\ a <= b /\ b <= hi /\ slice s a b = x /\
+                          (u = true -> is_boundary s a = true /\ is_boundary s b = true)
+  end.
+
+Lemma rng_ok_sound : forall u s lo hi c r, rng_ok u s lo hi c r = true -> rng_fact u s lo hi c r.
+Proof.
+  intros u s lo hi [x|] r H; simpl; [|exact I]. simpl in H.
+  destruct r as [[a b]|]; [|discriminate].
+  apply andb_true_iff in H. destruct H as [H Hb]. apply andb_true_iff in H. destruct H as [H He].
+  apply andb_true_iff in H. destruct H as [H H3]. apply andb_true_iff in H. destruct H as [H1 H2].
+  apply Z.leb_le in H1. apply Z.leb_le in H2. apply Z.leb_le in H3. apply str_eqb_eq in He.
+  exists a, b. split; [reflexivity|]. split; [exact H1|]. split; [exact H2|]. split; [exact H3|]. split; [exact He|].
+  intro Hu. subst u. simpl in Hb. apply andb_true_iff in Hb. exact Hb.
+Qed.
+
+Lemma rngs_ok_sound : forall u s lo hi cs rs, rngs_ok u s lo hi cs rs = true -> Forall2 (rng_fact u s lo hi) cs rs.
+Proof.
+  intros u s lo hi cs. induction cs as [|c cs IH]; intros [|r rs] H; simpl in H; try discriminate; [constructor|].
+  apply andb_true_iff in H. destruct H as [H1 H2]. constructor; [apply rng_ok_sound; exact H1|apply IH; exact H2].
+Qed.
+
+Lemma match_wf_sound : forall u ncap names s start m,
+  match_wf u ncap names s start m = true ->
+     0 <= start /\ 0 <= ms m /\ ms m <= me m /\ me m <= slen s
+  /\ (start <= ms m \/ (u = true /\ is_boundary s start = false /\ ms m = start - 1))
+  /\ (u = true -> is_boundary s (ms m) = true /\ is_boundary s (me m) = true)
+  /\ length (mcaps m) = S (N.to_nat ncap)
+  /\ nth_cap (mcaps m) 0 = Some (slice s (ms m) (me m))
+  /\ (forall x, In (Some x) (mcaps m) -> located u s x (ms m) (me m))
+  /\ groups_mirror names (mcaps m) (mgroups m)
+  /\ (mrng m <> [] -> Forall2 (rng_fact u s (ms m) (me m)) (mcaps m) (mrng m) /\
+                      nth_error (mrng m) 0 = Some (Some (ms m, me m))).
+Proof.
+  intros u ncap names s start m H. unfold match_wf in H.
+  apply andb_true_iff in H. destruct H as [H Hrng].
+  apply andb_true_iff in H. destruct H as [H Hgrp].
+  apply andb_true_iff in H. destruct H as [H Hocc].
+  apply andb_true_iff in H. destruct H as [H Hc0].
+  apply andb_true_iff in H. destruct H as [H Hlen].
+  apply andb_true_iff in H. destruct H as [H Hbd].
+  apply andb_true_iff in H. destruct H as [H Hme].
+  apply andb_true_iff in H. destruct H as [H Hmsme].
+  apply andb_true_iff in H. destruct H as [H Hst].
+  apply andb_true_iff in H. destruct H as [H0 Hms0].
+  apply Z.leb_le in H0. apply Z.leb_le in Hms0. apply Z.leb_le in Hmsme. apply Z.leb_le in Hme.
+  apply Nat.eqb_eq in Hlen. apply ostr_eqb_eq in Hc0.
+  split; [exact H0|]. split; [exact Hms0|]. split; [exact Hmsme|]. split; [exact Hme|].
+  split.
+  { apply orb_true_iff in Hst. destruct Hst as [Hst|Hst].
+    - left. apply Z.leb_le. exact Hst.
+    - right. apply andb_true_iff in Hst. destruct Hst as [Hst Heq]. apply andb_true_iff in Hst. destruct Hst as [Hu Hnb].
+      split; [exact Hu|]. split; [apply negb_true_iff; exact Hnb|apply Z.eqb_eq; exact Heq]. }
+  split.
+  { intro Hu. subst u. simpl in Hbd. apply andb_true_iff in Hbd. exact Hbd. }
+  split; [exact Hlen|]. split; [exact Hc0|].
+  split.
+  { intros x Hin. rewrite forallb_forall in Hocc. specialize (Hocc _ Hin). simpl in Hocc.
+    unfold occurs_in in Hocc. eapply occurs_from_sound. exact Hocc. }
+  split; [apply groups_ok_sound; exact Hgrp|].
+  intro Hne. destruct (mrng m) as [|r0 rs] eqn:Er; [congruence|].
+  apply andb_true_iff in Hrng. destruct Hrng as [Hr1 Hr2]. split.
+  - apply rngs_ok_sound. exact Hr1.
+  - destruct r0 as [[a b]|]; [|discriminate]. apply andb_true_iff in Hr2. destruct Hr2 as [Ha Hb].
+    apply Z.eqb_eq in Ha. apply Z.eqb_eq in Hb. subst. reflexivity.
+Qed.
+
+(* ------------------------------------------------------------------------------------------- *)
+
+
+(** * Position maps *)
+Lemma str_ind2 : forall (P : str -> Prop),
+  P [] -> (forall c, P [c]) -> (forall c d t, P t -> P (d :: t) -> P (c :: d :: t)) -> forall s, P s.
+Proof.
+  intros P H0 H1 H2 s.
+  assert (H : P s /\ forall c, P (c :: s)).
+  { induction s as [|d t IH].
+    - split; [exact H0|exact H1].
+    - destruct IH as [IHa IHb]. split; [apply IHb|]. intro c. apply H2; [exact IHa|apply IHb]. }
+  exact (proj1 H).
+Qed.
+
+Lemma is_surr_hi_lo : forall c, is_surr c = is_hi c || is_lo c.
+Proof.
+  intro c. unfold is_surr, is_hi, is_lo.
+  destruct (55296 <=? c)%N eqn:A; destruct (c <=? 56319)%N eqn:B; destruct (56320 <=? c)%N eqn:C;
+    destruct (c <=? 57343)%N eqn:D; simpl; try reflexivity;
+    repeat match goal with
+           | H : (_ <=? _)%N = true |- _ => apply N.leb_le in H
+           | H : (_ <=? _)%N = false |- _ => apply N.leb_gt in H
+           end; lia.
+Qed.
+
+Lemma pair_rune_not_surr : forall h l, is_surr (pair_rune h l) = false.
+Proof.
+  intros h l. unfold is_surr, pair_rune.
+  apply andb_false_iff. right. apply N.leb_gt. lia.
+Qed.
+
+Lemma decode_lenient_cons2 : forall c d t,
+  decode_lenient (c :: d :: t) =
+  if is_hi c && is_lo d then (pair_rune c d, 2) :: decode_lenient t else (c, 1) :: decode_lenient (d :: t).
+Proof. reflexivity. Qed.
+
+Lemma has_lone_cons2 : forall c d t,
+  has_lone_surrogate (c :: d :: t) =
+  if is_hi c && is_lo d then has_lone_surrogate t else is_surr c || has_lone_surrogate (d :: t).
+Proof.
+  intros c d t. unfold has_lone_surrogate. rewrite decode_lenient_cons2.
+  destruct (is_hi c && is_lo d); simpl existsb.
+  - rewrite pair_rune_not_surr. reflexivity.
+  - reflexivity.
+Qed.
+
+Lemma decode_strict_cons2 : forall c d t,
+  decode_strict (c :: d :: t) =
+  if is_hi c then (if is_lo d then option_map (cons (pair_rune c d, 2)) (decode_strict t) else None)
+  else if is_lo c then None else option_map (cons (c, 1)) (decode_strict (d :: t)).
+Proof. reflexivity. Qed.
+
+Lemma decode_strict_lenient : forall s,
+  has_lone_surrogate s = false -> decode_strict s = Some (decode_lenient s).
+Proof.
+  apply (str_ind2 (fun s => has_lone_surrogate s = false -> decode_strict s = Some (decode_lenient s))).
+  - reflexivity.
+  - intros c H. unfold has_lone_surrogate in H. simpl in H. rewrite orb_false_r in H.
+    rewrite is_surr_hi_lo in H. apply orb_false_iff in H. destruct H as [Hh Hl].
+    simpl. rewrite Hh, Hl. reflexivity.
+  - intros c d t IHt IHdt H. rewrite has_lone_cons2 in H. rewrite decode_strict_cons2, decode_lenient_cons2.
+    destruct (is_hi c) eqn:Hh; destruct (is_lo d) eqn:Hl; simpl in *.
+    + rewrite (IHt H). reflexivity.
+    + apply orb_false_iff in H. destruct H as [Hs _]. rewrite is_surr_hi_lo, Hh in Hs. discriminate.
+    + apply orb_false_iff in H. destruct H as [Hs Hr]. rewrite is_surr_hi_lo, Hh in Hs. simpl in Hs.
+      rewrite Hs. rewrite (IHdt Hr). reflexivity.
+    + apply orb_false_iff in H. destruct H as [Hs Hr]. rewrite is_surr_hi_lo, Hh in Hs. simpl in Hs.
+      rewrite Hs. rewrite (IHdt Hr). reflexivity.
+Qed.
+
+Lemma decode_strict_none : forall s, has_lone_surrogate s = true -> decode_strict s = None.
+Proof.
+  apply (str_ind2 (fun s => has_lone_surrogate s = true -> decode_strict s = None)).
+  - discriminate.
+  - intros c H. unfold has_lone_surrogate in H. simpl in H. rewrite orb_false_r in H.
+    rewrite is_surr_hi_lo in H. simpl. destruct (is_hi c); [reflexivity|]. simpl in H. rewrite H. reflexivity.
+  - intros c d t IHt IHdt H. rewrite has_lone_cons2 in H. rewrite decode_strict_cons2.
+    destruct (is_hi c) eqn:Hh; destruct (is_lo d) eqn:Hl; simpl in *.
+    + rewrite (IHt H). reflexivity.
+    + reflexivity.
+    + rewrite is_surr_hi_lo, Hh in H. simpl in H. destruct (is_lo c); [reflexivity|]. simpl in H.
+      rewrite (IHdt H). reflexivity.
+    + rewrite is_surr_hi_lo, Hh in H. simpl in H. destruct (is_lo c); [reflexivity|]. simpl in H.
+      rewrite (IHdt H). reflexivity.
+Qed.
+
+(* the bail-out happens exactly when the subject has a lone surrogate *)
+Lemma bailout_iff : forall s, build_utf8_posmap s = None <-> has_lone_surrogate s = true.
+Proof.
+  intro s. unfold build_utf8_posmap. split.
+  - intro H. destruct (has_lone_surrogate s) eqn:E; [reflexivity|].
+    rewrite (decode_strict_lenient s E) in H. discriminate.
+  - intro H. rewrite (decode_strict_none s H). reflexivity.
+Qed.
+
+Lemma utf8_len_pos : forall r, 1 <= utf8_len r.
+Proof. intro r. unfold utf8_len. destruct (r <? 128)%N; [lia|]. destruct (r <? 2048)%N; [lia|]. destruct (r <? 65536)%N; lia. Qed.
+
+Lemma utf8_off_nonneg : forall cps k, 0 <= utf8_off cps k.
+Proof.
+  induction cps as [|[r sz] t IH]; intro k; destruct k; simpl; try lia.
+  pose proof (utf8_len_pos r). pose proof (IH k). lia.
+Qed.
+
+Lemma utf8_off_pos : forall cps k, (1 <= k <= length cps)%nat -> 1 <= utf8_off cps k.
+Proof.
+  intros [|[r sz] t] k H; simpl in H; [lia|]. destruct k; [lia|]. simpl.
+  pose proof (utf8_len_pos r). pose proof (utf8_off_nonneg t k). lia.
+Qed.
+
+Lemma utf8_off_0 : forall cps, utf8_off cps 0 = 0.
+Proof. intros [|[? ?] ?]; reflexivity. Qed.
+Lemma utf16_off_0 : forall cps, utf16_off cps 0 = 0.
+Proof. intros [|[? ?] ?]; reflexivity. Qed.
+
+Lemma posmap_go_find : forall cps sP uP k, (1 <= k <= length cps)%nat ->
+  find (fun it => (uP + utf8_off cps k) <=? fst it) (posmap_go cps sP uP) =
+  Some (uP + utf8_off cps k, sP + utf16_off cps k).
+Proof.
+  induction cps as [|[r sz] t IH]; intros sP uP k H; simpl in H; [lia|].
+  destruct k as [|k]; [lia|]. simpl.
+  destruct k as [|k].
+  - rewrite utf8_off_0, utf16_off_0.
+    replace (uP + (utf8_len r + 0) <=? uP + utf8_len r) with true by (symmetry; apply Z.leb_le; lia).
+    f_equal. f_equal; lia.
+  - assert (Hk : (1 <= S k <= length t)%nat) by lia.
+    pose proof (utf8_off_pos t (S k) Hk) as Hp.
+    replace (uP + (utf8_len r + utf8_off t (S k)) <=? uP + utf8_len r) with false by (symmetry; apply Z.leb_gt; lia).
+    specialize (IH (sP + sz) (uP + utf8_len r) (S k) Hk).
+    replace (uP + (utf8_len r + utf8_off t (S k))) with (uP + utf8_len r + utf8_off t (S k)) by lia.
+    rewrite IH. f_equal. f_equal; lia.
+Qed.
+
+(* mapping the UTF-8 offset of the k-th code-point boundary gives its UTF-16 offset; total on boundaries *)
+Lemma posmap_correct : forall s pm bytes k,
+  build_utf8_posmap s = Some (pm, bytes) -> (k <= length (decode_lenient s))%nat ->
+  pm_get pm (utf8_off (decode_lenient s) k) = Some (utf16_off (decode_lenient s) k).
+Proof.
+  intros s pm bytes k H Hk. unfold build_utf8_posmap in H.
+  destruct (has_lone_surrogate s) eqn:E.
+  - rewrite (decode_strict_none s E) in H. discriminate.
+  - rewrite (decode_strict_lenient s E) in H. inversion H; subst. clear H.
+    set (cps := decode_lenient s) in *.
+    destruct k as [|k].
+    + rewrite utf8_off_0, utf16_off_0. reflexivity.
+    + assert (Hk' : (1 <= S k <= length cps)%nat) by lia.
+      pose proof (utf8_off_pos cps (S k) Hk') as Hp.
+      unfold pm_get. replace (utf8_off cps (S k) <=? 0) with false by (symmetry; apply Z.leb_gt; lia).
+      pose proof (posmap_go_find cps 0 0 (S k) Hk') as Hf. simpl Z.add in Hf.
+      rewrite Hf. rewrite Z.eqb_refl. reflexivity.
+Qed.
+
+(* offsets that are not a code-point boundary are rejected (the panic of positionMap.get) *)
+Lemma find_none_posmap : forall cps sP uP b,
+  (forall k, (1 <= k <= length cps)%nat -> uP + utf8_off cps k <> b) -> uP < b ->
+  match find (fun it => b <=? fst it) (posmap_go cps sP uP) with
+  | Some (a, _) => a <> b
+  | None => True
+  end.
+Proof.
+  induction cps as [|[r sz] t IH]; intros sP uP b H Hlt; simpl; [exact I|].
+  destruct (b <=? uP + utf8_len r) eqn:E.
+  - specialize (H 1%nat). simpl in H. rewrite utf8_off_0 in H. intro Heq. apply H; [lia|]. lia.
+  - apply Z.leb_gt in E. apply IH; [|lia].
+    intros k Hk. specialize (H (S k)). simpl in H. intro Heq. apply H; [lia|]. lia.
+Qed.
+
+Lemma posmap_only_boundaries : forall s pm bytes b,
+  build_utf8_posmap s = Some (pm, bytes) -> 0 < b ->
+  (forall k, (k <= length (decode_lenient s))%nat -> utf8_off (decode_lenient s) k <> b) ->
+  pm_get pm b = None.
+Proof.
+  intros s pm bytes b H Hb Hn. unfold build_utf8_posmap in H.
+  destruct (has_lone_surrogate s) eqn:E.
+  - rewrite (decode_strict_none s E) in H. discriminate.
+  - rewrite (decode_strict_lenient s E) in H. inversion H; subst. clear H.
+    unfold pm_get. replace (b <=? 0) with false by (symmetry; apply Z.leb_gt; lia).
+    pose proof (find_none_posmap (decode_lenient s) 0 0 b) as Hf.
+    destruct (find (fun it => b <=? fst it) (posmap_go (decode_lenient s) 0 0)) as [[a c]|]; [|reflexivity].
+    assert (a <> b).
+    { apply Hf; [|lia]. intros k Hk. simpl. apply Hn. lia. }
+    replace (a =? b) with false by (symmetry; apply Z.eqb_neq; assumption). reflexivity.
+Qed.
+
+(* monotone: later boundaries have strictly larger offsets in both encodings *)
+Lemma decode_lenient_sizes : forall s x, In x (decode_lenient s) -> 1 <= snd x.
+Proof.
+  apply (str_ind2 (fun s => forall x, In x (decode_lenient s) -> 1 <= snd x)).
+  - intros x [].
+  - intros c x [H|[]]. subst. simpl. lia.
+  - intros c d t IHt IHdt x H. rewrite decode_lenient_cons2 in H.
+    destruct (is_hi c && is_lo d); destruct H as [H|H]; try (subst; simpl; lia).
+    + apply IHt. exact H.
+    + apply IHdt. exact H.
+Qed.
+
+Lemma off_monotone : forall cps j k, (forall x, In x cps -> 1 <= snd x) -> (j < k <= length cps)%nat ->
+  utf16_off cps j < utf16_off cps k /\ utf8_off cps j < utf8_off cps k.
+Proof.
+  induction cps as [|[r sz] t IH]; intros j k Hs H; simpl in H; [lia|].
+  destruct k as [|k]; [lia|].
+  assert (Hsz : 1 <= sz) by (apply (Hs (r, sz)); left; reflexivity).
+  assert (Hs' : forall x, In x t -> 1 <= snd x) by (intros x Hx; apply Hs; right; exact Hx).
+  pose proof (utf8_len_pos r).
+  destruct j as [|j]; simpl.
+  - assert (0 <= utf16_off t k).
+    { clear -Hs'. revert k. induction t as [|[r' sz'] t IH]; intro k; destruct k; simpl; try lia.
+      assert (1 <= sz') by (apply (Hs' (r', sz')); left; reflexivity).
+      assert (0 <= utf16_off t k) by (apply IH; intros x Hx; apply Hs'; right; exact Hx). lia. }
+    pose proof (utf8_off_nonneg t k). lia.
+  - assert (Hjk : (j < k <= length t)%nat) by lia.
+    destruct (IH j k Hs' Hjk). lia.
+Qed.
+
+Lemma posmap_monotone : forall s j k, (j < k <= length (decode_lenient s))%nat ->
+  utf16_off (decode_lenient s) j < utf16_off (decode_lenient s) k /\
+  utf8_off (decode_lenient s) j < utf8_off (decode_lenient s) k.
+Proof. intros s j k H. apply off_monotone; [apply decode_lenient_sizes|exact H]. Qed.
+
+Lemma utf16_off_total : forall s, utf16_off (decode_lenient s) (length (decode_lenient s)) = slen s.
+Proof.
+  apply (str_ind2 (fun s => utf16_off (decode_lenient s) (length (decode_lenient s)) = slen s)).
+  - reflexivity.
+  - intro c. reflexivity.
+  - intros c d t IHt IHdt. rewrite decode_lenient_cons2. unfold slen in *.
+    destruct (is_hi c && is_lo d); cbn [length utf16_off].
+    + rewrite IHt. rewrite !Nat2Z.inj_succ. lia.
+    + rewrite IHdt. cbn [length]. rewrite !Nat2Z.inj_succ. lia.
+Qed.
+
+(* buildPosMap: entry k is the UTF-16 offset of the k-th code point *)
+Lemma posmap16_go_nth : forall cps cur k, (k <= length cps)%nat ->
+  nth_error (posmap16_go cps cur) k = Some (cur + utf16_off cps k).
+Proof.
+  induction cps as [|[r sz] t IH]; intros cur k H; simpl in H.
+  - assert (k = 0)%nat by lia. subst. simpl. f_equal. lia.
+  - destruct k as [|k]; simpl.
+    + f_equal. lia.
+    + rewrite IH by lia. f_equal. lia.
+Qed.
+
+Lemma posmap16_correct : forall s k, (k <= length (decode_lenient s))%nat ->
+  nth_error (build_posmap16 s) k = Some (utf16_off (decode_lenient s) k).
+Proof. intros s k H. unfold build_posmap16. rewrite posmap16_go_nth by exact H. f_equal. Qed.
+
+(* ------------------------------------------------------------------------------------------- *)
+
+
+Lemma slice_length : forall s a b, 0 <= a -> a <= b -> b <= slen s -> length (slice s a b) = Z.to_nat (b - a).
+Proof.
+  intros s a b H0 H1 H2. unfold slice, slen in *. rewrite firstn_length, skipn_length. lia.
+Qed.
+
+Lemma slice_all : forall s, slice s 0 (slen s) = s.
+Proof.
+  intro s. unfold slice, slen. simpl skipn. rewrite Z.sub_0_r, Nat2Z.id. apply firstn_all.
+Qed.
+
+Lemma slice_empty : forall s a, slice s a a = [].
+Proof. intros s a. unfold slice. rewrite Z.sub_diag. reflexivity. Qed.
+
+Lemma advance_gt : forall s pos u, pos < advance s pos u.
+Proof.
+  intros s pos u. unfold advance. destruct u; simpl; [|lia].
+  destruct (slen s <=? pos + 1); [lia|].
+  destruct (unit_at s pos) as [a|]; [|lia].
+  destruct (is_hi a); simpl; [|lia].
+  destruct (unit_at s (pos + 1)) as [b|]; [|lia]. destruct (is_lo b); simpl; lia.
+Qed.
+
+Lemma advance_le : forall s pos u, advance s pos u <= Z.max (pos + 1) (slen s).
+Proof.
+  intros s pos u. unfold advance. destruct u; simpl; [|lia].
+  destruct (slen s <=? pos + 1) eqn:E; [lia|]. apply Z.leb_gt in E.
+  destruct (unit_at s pos) as [a|]; [|lia].
+  destruct (is_hi a); simpl; [|lia].
+  destruct (unit_at s (pos + 1)) as [b|]; [|lia]. destruct (is_lo b); simpl; lia.
+Qed.
+
+Lemma advance_at_end : forall s u, advance s (slen s) u = slen s + 1.
+Proof.
+  intros s u. unfold advance. destruct u; simpl; [|reflexivity].
+  replace (slen s <=? slen s + 1) with true by (symmetry; apply Z.leb_le; lia). reflexivity.
+Qed.
+
+Lemma lo_not_hi : forall b, is_lo b = true -> is_hi b = false.
+Proof.
+  intros b H. unfold is_lo, is_hi in *. apply andb_true_iff in H. destruct H as [H1 H2].
+  apply N.leb_le in H1. apply andb_false_iff. right. apply N.leb_gt. lia.
+Qed.
+
+Lemma unit_at_end : forall s, unit_at s (slen s) = None.
+Proof.
+  intro s. unfold unit_at, slen. replace (Z.of_nat (length s) <? 0) with false by (symmetry; apply Z.ltb_ge; lia).
+  rewrite Nat2Z.id. apply nth_error_None. lia.
+Qed.
+
+Lemma boundary_0 : forall s, is_boundary s 0 = true.
+Proof.
+  intro s. unfold is_boundary. simpl. replace (0 <=? slen s) with true by (symmetry; apply Z.leb_le; unfold slen; lia).
+  reflexivity.
+Qed.
+
+(* under u, advancing from a code-point boundary lands on a code-point boundary *)
+Lemma advance_boundary : forall s pos, 0 <= pos < slen s -> is_boundary s pos = true ->
+  is_boundary s (advance s pos true) = true.
+Proof.
+  intros s pos Hp _. unfold advance. simpl negb. cbv iota.
+  destruct (slen s <=? pos + 1) eqn:E.
+  - apply Z.leb_le in E. assert (pos + 1 = slen s) by lia. rewrite H.
+    unfold is_boundary. rewrite unit_at_end.
+    replace (0 <=? slen s) with true by (symmetry; apply Z.leb_le; lia). rewrite Z.leb_refl. simpl.
+    destruct (unit_at s (slen s - 1)); reflexivity.
+  - apply Z.leb_gt in E.
+    assert (Hb1 : forall x, (0 <=? pos + 1) && (pos + 1 <=? slen s) && x = x).
+    { intro x. replace (0 <=? pos + 1) with true by (symmetry; apply Z.leb_le; lia).
+      replace (pos + 1 <=? slen s) with true by (symmetry; apply Z.leb_le; lia). reflexivity. }
+    destruct (unit_at s pos) as [a|] eqn:Ea.
+    + destruct (is_hi a) eqn:Hh; simpl negb; cbv iota.
+      * destruct (unit_at s (pos + 1)) as [b|] eqn:Eb.
+        { destruct (is_lo b) eqn:Hl; simpl negb; cbv iota.
+          - unfold is_boundary. replace (pos + 1 + 1 - 1) with (pos + 1) by lia. rewrite Eb.
+            replace (0 <=? pos + 1 + 1) with true by (symmetry; apply Z.leb_le; lia).
+            replace (pos + 1 + 1 <=? slen s) with true by (symmetry; apply Z.leb_le; lia). simpl.
+            rewrite (lo_not_hi b Hl). destruct (unit_at s (pos + 1 + 1)); reflexivity.
+          - unfold is_boundary. rewrite Hb1. replace (pos + 1 - 1) with pos by lia. rewrite Ea, Eb, Hh, Hl. reflexivity. }
+        { unfold is_boundary. rewrite Hb1. replace (pos + 1 - 1) with pos by lia. rewrite Ea, Eb. reflexivity. }
+      * unfold is_boundary. rewrite Hb1. replace (pos + 1 - 1) with pos by lia. rewrite Ea, Hh.
+        destruct (unit_at s (pos + 1)); reflexivity.
+    + unfold is_boundary. rewrite Hb1. replace (pos + 1 - 1) with pos by lia. rewrite Ea. reflexivity.
+Qed.
+
+Section GlobalLoop.
+  Variable find : str -> Z -> option mres.
+  Variable fl : flags.
+  Variable rep : mres -> str.
+  Variable s : str.
+  Hypothesis Hg : fg fl = true.
+  Hypothesis Hy : fy fl = false.
+  (* what match_wf guarantees of an engine result (match_wf_sound), for a scan started at p *)
+  (* only asked of scans started at a code-point boundary when the u flag is set *)
+  Hypothesis Hfind : forall p m, 0 <= p <= slen s -> (fu fl = true -> is_boundary s p = true) -> find s p = Some m ->
+      p <= ms m /\ ms m <= me m /\ me m <= slen s /\ cap0 m = slice s (ms m) (me m) /\
+      (fu fl = true -> is_boundary s (me m) = true).
+
+  Lemma slen_nonneg' : 0 <= slen s.
+  Proof. unfold slen. lia. Qed.
+
+  Lemma exec_core_g : forall pos, 0 <= pos ->
+    exec_core find fl s pos =
+    (if pos <=? slen s then find s pos else None,
+     match (if pos <=? slen s then find s pos else None) with Some m => me m | None => 0 end).
+  Proof.
+    intros pos Hp. unfold exec_core. rewrite Hg, Hy. simpl.
+    unfold to_length. rewrite Z.max_r by lia.
+    destruct (if pos <=? slen s then find s pos else None); reflexivity.
+  Qed.
+
+  Lemma rx2_all_beyond : forall fr pos st limit ign sticky,
+    slen s < pos -> rx2_all find fl s fr pos st limit ign sticky = [].
+  Proof.
+    intros [|fr] pos st limit ign sticky H; [reflexivity|]. simpl.
+    replace (slen s <? pos) with true by (symmetry; apply Z.ltb_lt; lia).
+    rewrite orb_true_r. reflexivity.
+  Qed.
+
+  Definition bnd (pos : Z) : Prop := fu fl = true -> pos <= slen s -> is_boundary s pos = true.
+
+  Lemma bnd_next : forall m, ms m <= me m -> me m <= slen s -> (fu fl = true -> is_boundary s (me m) = true) -> 0 <= me m ->
+    bnd (if me m =? ms m then advance s (me m) (fu fl) else me m).
+  Proof.
+    intros m H2 H3 Hb H0 Hu Hle. destruct (me m =? ms m) eqn:E.
+    - rewrite Hu in *. destruct (Z.eq_dec (me m) (slen s)) as [Heq|Hne].
+      + rewrite Heq, advance_at_end in Hle. lia.
+      + apply advance_boundary; [lia|apply Hb; reflexivity].
+    - apply Hb. exact Hu.
+  Qed.
+
+  Lemma cap0_empty_iff : forall p m, 0 <= p <= slen s -> (fu fl = true -> is_boundary s p = true) -> find s p = Some m ->
+    (length (cap0 m) =? 0)%nat = (me m =? ms m).
+  Proof.
+    intros p m Hp Hbp Hf. destruct (Hfind p m Hp Hbp Hf) as [H1 [H2 [H3 [H4 _]]]].
+    rewrite H4. rewrite slice_length by lia.
+    destruct (me m =? ms m) eqn:E.
+    - apply Z.eqb_eq in E. rewrite E, Z.sub_diag. reflexivity.
+    - apply Z.eqb_neq in E. apply Nat.eqb_neq. lia.
+  Qed.
+
+  (* the exec loop of the generic path and regexp2's FindNextMatch iteration list the same matches;
+     the loop ends by itself (flag true) with lastIndex 0 *)
+  Lemma g_loop_rx2 : forall fgl fr pos st limit ign,
+    0 <= pos <= slen s + 1 -> bnd pos ->
+    slen s + 2 - pos <= Z.of_nat fgl -> slen s + 2 - pos <= Z.of_nat fr -> slen s + 1 - pos <= limit ->
+    g_loop find fl s fgl pos = (rx2_all find fl s fr pos st limit ign false, 0, true).
+  Proof.
+    induction fgl as [|f IH]; intros fr pos st limit ign Hp Hbd Hf1 Hf2 Hl; [lia|].
+    destruct fr as [|fr]; [simpl in Hf2; lia|].
+    pose proof slen_nonneg' as Hs.
+    cbn [g_loop]. rewrite exec_core_g by lia. cbn [rx2_all].
+    destruct (pos <=? slen s) eqn:Ep.
+    - apply Z.leb_le in Ep.
+      replace ((pos <? 0) || (slen s <? pos)) with false
+        by (symmetry; apply orb_false_iff; split; [apply Z.ltb_ge; lia|apply Z.ltb_ge; lia]).
+      destruct (find s pos) as [m|] eqn:Ef; [|reflexivity].
+      assert (Hpp : 0 <= pos <= slen s) by lia.
+      assert (Hbp : fu fl = true -> is_boundary s pos = true) by (intro Hu; apply Hbd; [exact Hu|lia]).
+      destruct (Hfind pos m Hpp Hbp Ef) as [H1 [H2 [H3 [H4 H5]]]].
+      rewrite (cap0_empty_iff pos m Hpp Hbp Ef).
+      unfold to_length. rewrite (Z.max_r 0 (me m)) by lia.
+      simpl andb.
+      set (next := if me m =? ms m then advance s (me m) (fu fl) else me m).
+      assert (Hn : pos < next <= slen s + 1).
+      { unfold next. destruct (me m =? ms m) eqn:E.
+        - apply Z.eqb_eq in E. pose proof (advance_gt s (me m) (fu fl)). pose proof (advance_le s (me m) (fu fl)). lia.
+        - apply Z.eqb_neq in E. lia. }
+      assert (Hbn : bnd next) by (apply bnd_next; try assumption; lia).
+      rewrite (IH fr next st (limit - 1) ign) by (try exact Hbn; rewrite ?Nat2Z.inj_succ in *; lia).
+      destruct (negb ign && (limit - 1 <=? 0)) eqn:El.
+      + apply andb_true_iff in El. destruct El as [_ El]. apply Z.leb_le in El.
+        assert (me m = slen s /\ ms m = slen s) by lia.
+        assert (next = slen s + 1).
+        { unfold next. replace (me m =? ms m) with true by (symmetry; apply Z.eqb_eq; lia).
+          replace (me m) with (slen s) by lia. apply advance_at_end. }
+        rewrite rx2_all_beyond by lia. reflexivity.
+      + destruct ((me m =? ms m) && (me m =? slen s)) eqn:Ee.
+        * apply andb_true_iff in Ee. destruct Ee as [E1 E2]. apply Z.eqb_eq in E1. apply Z.eqb_eq in E2.
+          assert (next = slen s + 1).
+          { unfold next. replace (me m =? ms m) with true by (symmetry; apply Z.eqb_eq; lia).
+            rewrite E2. apply advance_at_end. }
+          rewrite rx2_all_beyond by lia. reflexivity.
+        * reflexivity.
+    - apply Z.leb_gt in Ep.
+      replace ((pos <? 0) || (slen s <? pos)) with true
+        by (symmetry; apply orb_true_iff; right; apply Z.ltb_lt; lia).
+      reflexivity.
+  Qed.
+
+  Definition rx2_list : list mres :=
+    find_all find fl s RX2 0 (-1) false.
+
+  Lemma find_all_rx2_unfold :
+    rx2_list = rx2_all find fl s (all_fuel s) 0 0 (slen s + 1) (negb (is_ascii s) && fu fl) false.
+  Proof. reflexivity. Qed.
+
+  Lemma g_matches_rx2 : g_matches find fl s = (rx2_list, 0).
+  Proof.
+    unfold g_matches. rewrite find_all_rx2_unfold.
+    pose proof slen_nonneg' as Hs.
+    rewrite (g_loop_rx2 (loop_fuel s) (all_fuel s) 0 0 (slen s + 1) (negb (is_ascii s) && fu fl)); [reflexivity| | | | |].
+    - lia.
+    - intros _ _. apply boundary_0.
+    - unfold loop_fuel, slen. lia.
+    - unfold all_fuel, slen. lia.
+    - lia.
+  Qed.
+
+  (* termination: any fuel beyond the default gives the same result, and the loop ended by itself *)
+  Lemma global_loop_terminates : forall n, (loop_fuel s <= n)%nat ->
+    g_loop find fl s n 0 = g_loop find fl s (loop_fuel s) 0 /\ snd (g_loop find fl s n 0) = true.
+  Proof.
+    intros n Hn. pose proof slen_nonneg' as Hs.
+    assert (Hb : slen s + 2 - 0 <= Z.of_nat (loop_fuel s)) by (unfold loop_fuel, slen; lia).
+    assert (Hb0 : bnd 0) by (intros _ _; apply boundary_0).
+    rewrite (g_loop_rx2 n (all_fuel s) 0 0 (slen s + 1) false) by (try exact Hb0; unfold all_fuel, slen in *; lia).
+    rewrite (g_loop_rx2 (loop_fuel s) (all_fuel s) 0 0 (slen s + 1) false) by (try exact Hb0; unfold all_fuel, slen in *; lia).
+    split; reflexivity.
+  Qed.
+
+  (* ordered, in-bounds match lists *)
+  Fixpoint chain (n : Z) (l : list mres) : Prop :=
+    match l with
+    | [] => True
+    | m :: t => n <= ms m /\ ms m <= me m /\ me m <= slen s /\ cap0 m = slice s (ms m) (me m) /\ chain (me m) t
+    end.
+
+  Lemma chain_weaken : forall l n n', n' <= n -> chain n l -> chain n' l.
+  Proof. intros [|m t] n n' H Hc; simpl in *; [exact I|]. destruct Hc as [H1 H2]. split; [lia|exact H2]. Qed.
+
+  Lemma rx2_chain : forall fr pos st limit ign, 0 <= pos -> bnd pos -> chain pos (rx2_all find fl s fr pos st limit ign false).
+  Proof.
+    induction fr as [|fr IH]; intros pos st limit ign Hp Hbd; [exact I|]. simpl.
+    destruct ((pos <? 0) || (slen s <? pos)) eqn:Ec; [exact I|].
+    apply orb_false_iff in Ec. destruct Ec as [_ Ec]. apply Z.ltb_ge in Ec.
+    destruct (find s pos) as [m|] eqn:Ef; [|exact I].
+    assert (Hpp : 0 <= pos <= slen s) by lia.
+    assert (Hbp : fu fl = true -> is_boundary s pos = true) by (intro Hu; apply Hbd; [exact Hu|lia]).
+    destruct (Hfind pos m Hpp Hbp Ef) as [H1 [H2 [H3 [H4 H5]]]].
+    simpl andb.
+    destruct (negb ign && (limit - 1 <=? 0)); [simpl; repeat split; assumption|].
+    destruct ((me m =? ms m) && (me m =? slen s)); [simpl; repeat split; assumption|].
+    simpl. repeat split; try assumption.
+    set (next := if me m =? ms m then advance s (me m) (fu fl) else me m).
+    assert (Hn : me m <= next).
+    { unfold next. destruct (me m =? ms m); [pose proof (advance_gt s (me m) (fu fl)); lia|lia]. }
+    apply (chain_weaken _ next); [exact Hn|]. apply IH; [lia|]. apply bnd_next; try assumption; lia.
+  Qed.
+
+  Lemma chain_map_cap0 : forall l n, chain n l ->
+    map (fun m => Some (cap0 m)) l = map (fun m => Some (slice s (ms m) (me m))) l.
+  Proof.
+    induction l as [|m t IH]; intros n H; [reflexivity|]. simpl in H. destruct H as [_ [_ [_ [H4 H5]]]].
+    simpl. rewrite H4. f_equal. apply (IH (me m)). exact H5.
+  Qed.
+
+  (** match with g: optimised path = generic path, results and lastIndex, for every engine *)
+  Lemma match_g_paths_agree : forall li, match_fast find fl s RX2 li = match_generic find fl s li.
+  Proof.
+    intro li. unfold match_fast, match_generic. rewrite Hg, Hy. rewrite g_matches_rx2.
+    fold rx2_list.
+    assert (Hc : chain 0 rx2_list) by (rewrite find_all_rx2_unfold; apply rx2_chain; [lia|intros _ _; apply boundary_0]).
+    rewrite (chain_map_cap0 _ 0 Hc). destruct rx2_list; reflexivity.
+  Qed.
+
+  (** replace with g *)
+  Lemma assemble_agree : forall l n buf, chain n l -> 0 <= n <= slen s ->
+    assemble_generic rep s l n buf = assemble_fast rep s l n buf.
+  Proof.
+    induction l as [|m t IH]; intros n buf Hc Hn; simpl.
+    - destruct (n <? slen s) eqn:E1; destruct (n =? slen s) eqn:E2; try reflexivity.
+      + apply Z.ltb_lt in E1. apply Z.eqb_eq in E2. lia.
+      + apply Z.ltb_ge in E1. apply Z.eqb_neq in E2. lia.
+    - simpl in Hc. destruct Hc as [H1 [H2 [H3 [H4 H5]]]].
+      rewrite (Z.min_l (ms m) (slen s)) by lia. rewrite (Z.max_l (ms m) 0) by lia.
+      replace (n <=? ms m) with true by (symmetry; apply Z.leb_le; lia).
+      rewrite H4 at 1. rewrite slice_length by lia.
+      replace (ms m + Z.of_nat (Z.to_nat (me m - ms m))) with (me m) by lia.
+      destruct (ms m =? n) eqn:E.
+      + apply Z.eqb_eq in E. rewrite <- E. rewrite slice_empty. simpl. apply IH; [exact H5|lia].
+      + rewrite app_assoc. apply IH; [exact H5|lia].
+  Qed.
+
+  Lemma replace_g_paths_agree : forall li, replace_fast find fl rep s RX2 li = replace_generic find fl rep s li.
+  Proof.
+    intro li. unfold replace_fast, replace_generic. rewrite Hg, Hy. simpl negb. simpl orb.
+    rewrite g_matches_rx2. fold rx2_list.
+    assert (Hc : chain 0 rx2_list) by (rewrite find_all_rx2_unfold; apply rx2_chain; [lia|intros _ _; apply boundary_0]).
+    pose proof slen_nonneg' as Hs.
+    destruct rx2_list as [|m t] eqn:El.
+    - simpl. destruct (0 <? slen s) eqn:E.
+      + rewrite slice_all. reflexivity.
+      + apply Z.ltb_ge in E. assert (length s = 0)%nat by (unfold slen in *; lia).
+        destruct s; [reflexivity|discriminate].
+    - rewrite (assemble_agree (m :: t) 0 [] Hc) by lia. reflexivity.
+  Qed.
+End GlobalLoop.
+
+(* ------------------------------------------------------------------------------------------- *)
+(** * What match_wf gives the protocol theorems *)
+Lemma wf_engine_ok : forall (find : str -> Z -> option mres) (fl : flags) ncap names s,
+  (forall p m, 0 <= p <= slen s -> find s p = Some m -> match_wf (fu fl) ncap names s p m = true) ->
+  forall p m, 0 <= p <= slen s -> (fu fl = true -> is_boundary s p = true) -> find s p = Some m ->
+    p <= ms m /\ ms m <= me m /\ me m <= slen s /\ cap0 m = slice s (ms m) (me m) /\
+    (fu fl = true -> is_boundary s (me m) = true).
+Proof.
+  intros find fl ncap names s H p m Hp Hb Hf.
+  destruct (match_wf_sound _ _ _ _ _ _ (H p m Hp Hf)) as [_ [_ [H3 [H4 [H5 [H6 [_ [H8 _]]]]]]]].
+  assert (Hpm : p <= ms m).
+  { destruct H5 as [H5|[Hu [Hnb _]]]; [exact H5|]. rewrite (Hb Hu) in Hnb. discriminate. }
+  split; [exact Hpm|]. split; [exact H3|]. split; [exact H4|]. split.
+  - unfold nth_cap in H8. unfold cap0. destruct (mcaps m) as [|c cs]; [discriminate|]. simpl in H8. rewrite H8. reflexivity.
+  - intro Hu. apply H6. exact Hu.
+Qed.
+
+(* ------------------------------------------------------------------------------------------- *)
+(** * Where the optimised path is NOT the generic path on this tree (open findings), by computation
+      on a concrete engine: the pattern a* on the subject "baac" *)
+Definition s_baac : str := [98; 97; 97; 99]%N.
+Definition mk_m (a b : Z) : mres := mkM a b [Some (slice s_baac a b)] None [].
+Definition find_astar (_ : str) (p : Z) : option mres :=
+  if p =? 0 then Some (mk_m 0 0) else if p =? 1 then Some (mk_m 1 3) else if p =? 2 then Some (mk_m 2 3)
+  else if p =? 3 then Some (mk_m 3 3) else if p =? 4 then Some (mk_m 4 4) else None.
+Definition fl_g := mkFlags true false false false false false.
+Definition fl_gy := mkFlags true false false false false true.
+Definition fl_none := mkFlags false false false false false false.
+
+Lemma find_astar_wf : forall p m, 0 <= p <= slen s_baac -> find_astar s_baac p = Some m ->
+  match_wf false 0 [] s_baac p m = true.
+Proof.
+  intros p m Hp H. unfold slen in Hp. simpl in Hp.
+  assert (Hc : p = 0 \/ p = 1 \/ p = 2 \/ p = 3 \/ p = 4) by lia.
+  destruct Hc as [E|[E|[E|[E|E]]]]; subst p; inversion H; subst; reflexivity.
+Qed.
+
+(* F201: Go's FindAll drops the empty match adjacent to the previous match *)
+Lemma match_g_re2_refuted :
+  match_fast find_astar fl_g s_baac RE2 0 <> match_generic find_astar fl_g s_baac 0.
+Proof. vm_compute. discriminate. Qed.
+(* F202: with g and y the optimised path stops after the first empty match *)
+Lemma match_gy_refuted :
+  match_fast find_astar fl_gy s_baac RX2 0 <> match_generic find_astar fl_gy s_baac 0.
+Proof. vm_compute. discriminate. Qed.
+(* F203: the optimised splitter over regexp2's match list *)
+Lemma split_rx2_refuted :
+  split_fast find_astar fl_none s_baac RX2 None <> split_generic find_astar fl_none s_baac None.
+Proof. vm_compute. discriminate. Qed.
+(* ... while over Go's FindAll list it agrees on this input, and so do match/replace over regexp2's list *)
+Lemma baac_agreements :
+  split_fast find_astar fl_none s_baac RE2 None = split_generic find_astar fl_none s_baac None /\
+  match_fast find_astar fl_g s_baac RX2 0 = match_generic find_astar fl_g s_baac 0 /\
+  match_generic find_astar fl_g s_baac 0 = (RL [Some []; Some [97; 97]%N; Some []; Some []], 0).
+Proof. vm_compute. repeat split. Qed.
+
+(* ------------------------------------------------------------------------------------------- *)
+(** * split: optimised path over Go's FindAll list = generic path *)
+
+Lemma is_ascii_advance : forall s, is_ascii s = true -> forall pos, advance s pos true = pos + 1.
+Proof.
+  intros s Ha pos. unfold advance. simpl negb. cbv iota.
+  destruct (slen s <=? pos + 1); [reflexivity|].
+  destruct (unit_at s pos) as [a|] eqn:E; [|reflexivity].
+  assert (Hin : In a s).
+  { unfold unit_at in E. destruct (pos <? 0); [discriminate|]. apply nth_error_In in E. exact E. }
+  unfold is_ascii in Ha. rewrite forallb_forall in Ha. specialize (Ha a Hin). apply N.ltb_lt in Ha.
+  assert (Hh : is_hi a = false).
+  { unfold is_hi. apply andb_false_iff. left. apply N.leb_gt. lia. }
+  rewrite Hh. reflexivity.
+Qed.
+
+Section Split.
+  Variable find : str -> Z -> option mres.
+  Variable fl : flags.
+  Variable s : str.
+  Hypothesis Hu : fu fl = false.
+  (* the subject has no surrogate pairs (it is ASCII on the route where Go's FindAll is used without u) *)
+  Hypothesis Hadv : forall pos, advance s pos true = pos + 1.
+  Hypothesis Hfind : forall p m, 0 <= p <= slen s -> find s p = Some m -> p <= ms m /\ ms m <= me m /\ me m <= slen s.
+  (* the engine is a leftmost scan: starting later, but not after the match, finds the same match;
+     a failed scan stays failed *)
+  Hypothesis Hsame : forall p m q, 0 <= p <= slen s -> find s p = Some m -> p <= q <= ms m -> find s q = Some m.
+  Hypothesis Hnone : forall p q, 0 <= p <= slen s -> find s p = None -> p <= q <= slen s -> find s q = None.
+
+  Let sl := split_loop find fl s.
+  Let fastl := split_fast_loop s.
+  Let re2 := re2_all find s.
+
+  Lemma sl_step : forall f p q, q < slen s ->
+    sl (S f) p q =
+    match sticky_at find s q with
+    | None => sl f p (q + 1)
+    | Some m => let e := Z.min (me m) (slen s) in
+                if e =? p then sl f p (q + 1) else Some (slice s p q) :: tl (mcaps m) ++ sl f e e
+    end.
+  Proof.
+    intros f p q Hq. unfold sl. cbn [split_loop].
+    replace (slen s <=? q) with false by (symmetry; apply Z.leb_gt; lia).
+    rewrite Hu. rewrite !advance_nonu. reflexivity.
+  Qed.
+
+  Lemma sl_end : forall f p q, slen s <= q -> sl f p q = [Some (slice s p (slen s))].
+  Proof.
+    intros [|f] p q Hq; unfold sl; cbn [split_loop]; [reflexivity|].
+    replace (slen s <=? q) with true by (symmetry; apply Z.leb_le; lia). reflexivity.
+  Qed.
+
+  Lemma sticky_none_of_find_none : forall q, find s q = None -> sticky_at find s q = None.
+  Proof. intros q H. unfold sticky_at. destruct (q <=? slen s); rewrite ?H; reflexivity. Qed.
+
+  Lemma sticky_of_find : forall q m, 0 <= q <= slen s -> find s q = Some m ->
+    sticky_at find s q = if ms m =? q then Some m else None.
+  Proof.
+    intros q m Hq H. unfold sticky_at.
+    replace (q <=? slen s) with true by (symmetry; apply Z.leb_le; lia). rewrite H. reflexivity.
+  Qed.
+
+  (* S2: no match from q on: the rest of the subject is the last piece *)
+  Lemma sl_none : forall f p q, 0 <= q <= slen s -> find s q = None -> slen s - q + 1 <= Z.of_nat f ->
+    sl f p q = [Some (slice s p (slen s))].
+  Proof.
+    induction f as [|f IH]; intros p q Hq Hn Hf; [lia|].
+    destruct (Z.eq_dec q (slen s)) as [E|E]; [apply sl_end; lia|].
+    rewrite sl_step by lia. rewrite (sticky_none_of_find_none q Hn).
+    apply IH; [lia| |lia]. apply (Hnone q (q + 1)); [lia|exact Hn|lia].
+  Qed.
+
+  (* S1: scanning up to the start of the leftmost match *)
+  Lemma sl_scan : forall d f p q m, 0 <= q -> find s q = Some m -> ms m = q + Z.of_nat d -> ms m <= slen s ->
+    (d = 0%nat \/ True) -> sl (d + f) p q = sl f p (ms m).
+  Proof.
+    induction d as [|d IH]; intros f p q m Hq Hf Hm Hle _.
+    - simpl. replace (ms m) with q by lia. reflexivity.
+    - assert (Hq' : 0 <= q <= slen s) by lia.
+      change (S d + f)%nat with (S (d + f)). rewrite sl_step by lia.
+      rewrite (sticky_of_find q m Hq' Hf). replace (ms m =? q) with false by (symmetry; apply Z.eqb_neq; lia).
+      apply IH; [lia| |lia|lia|right; exact I].
+      apply (Hsame q m (q + 1)); [lia|exact Hf|lia].
+  Qed.
+
+  Lemma re2_beyond : forall f pos prev n, slen s < pos -> re2 f pos prev n = [].
+  Proof.
+    intros [|f] pos prev n H; unfold re2; cbn [re2_all]; [reflexivity|].
+    replace (slen s <? pos) with true by (symmetry; apply Z.ltb_lt; lia). rewrite orb_true_r. reflexivity.
+  Qed.
+
+  Lemma re2_step : forall f pos prev n, 0 <= pos <= slen s -> 1 <= n ->
+    re2 (S f) pos prev n =
+    match find s pos with
+    | None => []
+    | Some m => if negb ((me m =? pos) && (ms m =? prev))
+                then m :: re2 f (if me m =? pos then pos + 1 else me m) (me m) (n - 1)
+                else re2 f (if me m =? pos then pos + 1 else me m) (me m) n
+    end.
+  Proof.
+    intros f pos prev n Hp Hn. unfold re2. cbn [re2_all].
+    replace ((n <=? 0) || (slen s <? pos)) with false
+      by (symmetry; apply orb_false_iff; split; [apply Z.leb_gt; lia|apply Z.ltb_ge; lia]).
+    rewrite Hadv. reflexivity.
+  Qed.
+
+  Lemma fastl_nil : forall p, 0 <= p <= slen s -> fastl [] p = [Some (slice s p (slen s))].
+  Proof.
+    intros p Hp. unfold fastl. simpl. destruct (p =? slen s) eqn:E; [|reflexivity].
+    apply Z.eqb_eq in E. rewrite E. rewrite slice_empty. reflexivity.
+  Qed.
+
+  Definition prev_ok (p q prev : Z) : Prop :=
+    (q = p /\ (prev = p \/ (p = 0 /\ prev = -1))) \/ (p < q /\ prev < q).
+
+  Lemma split_core : forall k p q prev F F' N,
+    Z.to_nat (slen s + 1 - q) = k -> 0 <= p <= q -> q <= slen s + 1 -> p <= slen s -> prev_ok p q prev ->
+    slen s + 2 - q <= Z.of_nat F -> 2 * (slen s - q) + 3 <= Z.of_nat F' -> slen s + 1 - q <= N ->
+    fastl (re2 F q prev N) p = sl F' p q.
+  Proof.
+    induction k as [k IHk] using lt_wf_ind.
+    intros p q prev F F' N Hk Hpq Hq Hp Hprev HF HF' HN.
+    assert (Hs : 0 <= slen s) by (unfold slen; lia).
+    destruct (Z.eq_dec q (slen s + 1)) as [Eq|Eq].
+    { rewrite re2_beyond by lia. rewrite sl_end by lia. apply fastl_nil. lia. }
+    assert (Hq' : 0 <= q <= slen s) by lia.
+    destruct F as [|F]; [simpl in HF; lia|].
+    rewrite re2_step by lia.
+    destruct (Z.eq_dec q (slen s)) as [Eqs|Eqs].
+    { (* at the end of the subject only an empty match is possible, and nobody uses it *)
+      rewrite sl_end by lia.
+      destruct (find s q) as [m|] eqn:Ef; [|apply fastl_nil; lia].
+      destruct (Hfind q m Hq' Ef) as [H1 [H2 H3]].
+      replace (me m =? q) with true by (symmetry; apply Z.eqb_eq; lia).
+      rewrite !re2_beyond by lia.
+      destruct (negb (true && (ms m =? prev))); [|apply fastl_nil; lia].
+      unfold fastl. cbn [split_fast_loop]. fold fastl.
+      replace (ms m =? me m) with true by (symmetry; apply Z.eqb_eq; lia).
+      replace (ms m =? slen s) with true by (symmetry; apply Z.eqb_eq; lia). rewrite orb_true_r. simpl andb. cbv iota.
+      apply fastl_nil. lia. }
+    destruct (find s q) as [m|] eqn:Ef.
+    2:{ rewrite fastl_nil by lia. symmetry. apply sl_none; [lia|exact Ef|lia]. }
+    destruct (Hfind q m Hq' Ef) as [H1 [H2 H3]].
+    (* generic side: scan to ms m *)
+    set (d := Z.to_nat (ms m - q)).
+    assert (HF'd : (d <= F')%nat) by lia.
+    replace F' with (d + (F' - d))%nat by lia.
+    rewrite (sl_scan d (F' - d) p q m) by (try exact Ef; try lia; right; exact I).
+    assert (Hfm : find s (ms m) = Some m) by (apply (Hsame q m (ms m)); [lia|exact Ef|lia]).
+    remember (F' - d)%nat as G eqn:HeqG. assert (HG : 2 * (slen s - q) + 3 - (ms m - q) <= Z.of_nat G) by lia.
+    destruct (Z.eq_dec (me m) p) as [Emp|Emp].
+    - (* empty match at p = q: skipped on both sides *)
+      assert (q = p /\ ms m = p) by lia. destruct H as [Hqp Hmsp].
+      destruct G as [|G]; [simpl in HG; lia|].
+      rewrite Hmsp. rewrite sl_step by lia.
+      rewrite (sticky_of_find p m) by (try lia; rewrite <- Hmsp; exact Hfm).
+      replace (ms m =? p) with true by (symmetry; apply Z.eqb_eq; lia). cbv zeta.
+      replace (Z.min (me m) (slen s) =? p) with true by (symmetry; apply Z.eqb_eq; lia).
+      replace (me m =? q) with true by (symmetry; apply Z.eqb_eq; lia).
+      destruct Hprev as [[_ [Hpv|[Hp0 Hpv]]]|[Hlt _]]; [| |lia].
+      + (* rejected by FindAll *)
+        replace (ms m =? prev) with true by (symmetry; apply Z.eqb_eq; lia).
+        replace (p =? prev) with true by (symmetry; apply Z.eqb_eq; lia). simpl andb. simpl negb. cbv iota.
+        rewrite ?Hqp, ?Emp.
+        apply (IHk (Z.to_nat (slen s + 1 - (p + 1)))); try lia.
+        right. lia.
+      + (* the initial empty match at 0: delivered by FindAll, skipped by the splitter *)
+        replace (ms m =? prev) with false by (symmetry; apply Z.eqb_neq; lia).
+        replace (p =? prev) with false by (symmetry; apply Z.eqb_neq; lia). rewrite ?andb_false_r. simpl negb. cbv iota.
+        unfold fastl. cbn [split_fast_loop]. fold fastl.
+        replace (ms m =? me m) with true by (symmetry; apply Z.eqb_eq; lia).
+        replace (ms m =? 0) with true by (symmetry; apply Z.eqb_eq; lia). simpl andb. cbv iota.
+        rewrite ?Hqp, ?Emp.
+        apply (IHk (Z.to_nat (slen s + 1 - (p + 1)))); try lia.
+        right. lia.
+    - (* a match that is used (or an empty match at the very end) *)
+      assert (Hacc : negb ((me m =? q) && (ms m =? prev)) = true).
+      { apply negb_true_iff. apply andb_false_iff.
+        destruct (Z.eq_dec (me m) q) as [E|E]; [|left; apply Z.eqb_neq; exact E].
+        right. apply Z.eqb_neq. destruct Hprev as [[Hqp _]|[Hlt Hpv]]; lia. }
+      rewrite Hacc.
+      unfold fastl. cbn [split_fast_loop]. fold fastl.
+      destruct (Z.eq_dec (ms m) (slen s)) as [Eend|Eend].
+      + (* empty match at the end of the subject *)
+        assert (me m = slen s) by lia.
+        replace (ms m =? me m) with true by (symmetry; apply Z.eqb_eq; lia).
+        replace (ms m =? slen s) with true by (symmetry; apply Z.eqb_eq; lia). rewrite orb_true_r. simpl andb. cbv iota.
+        replace (me m =? q) with false by (symmetry; apply Z.eqb_neq; lia).
+        destruct F as [|F]; [simpl in HF; lia|].
+        rewrite re2_step by lia.
+        replace (me m) with (slen s) by lia.
+        assert (Hfe : find s (slen s) = Some m) by (rewrite <- Eend; exact Hfm).
+        rewrite Hfe.
+        replace (me m =? slen s) with true by (symmetry; apply Z.eqb_eq; lia).
+        replace (ms m =? slen s) with true by (symmetry; apply Z.eqb_eq; lia). simpl andb. simpl negb. cbv iota.
+        rewrite re2_beyond by lia.
+        rewrite fastl_nil by lia. rewrite Eend. rewrite sl_end by lia. reflexivity.
+      + assert (Hhack : (ms m =? me m) && ((ms m =? 0) || (ms m =? slen s)) = false).
+        { apply andb_false_iff. destruct (Z.eq_dec (ms m) (me m)) as [E|E]; [|left; apply Z.eqb_neq; exact E].
+          right. apply orb_false_iff. split; apply Z.eqb_neq; lia. }
+        rewrite Hhack.
+        destruct G as [|G]; [simpl in HG; lia|].
+        rewrite sl_step by lia.
+        rewrite (sticky_of_find (ms m) m) by (try lia; exact Hfm). rewrite Z.eqb_refl. cbv zeta.
+        rewrite (Z.min_l (me m) (slen s)) by lia.
+        replace (me m =? p) with false by (symmetry; apply Z.eqb_neq; exact Emp).
+        assert (Hpiece : (if p =? ms m then [] else slice s p (ms m)) = slice s p (ms m)).
+        { destruct (p =? ms m) eqn:E; [|reflexivity]. apply Z.eqb_eq in E. rewrite <- E. rewrite slice_empty. reflexivity. }
+        rewrite Hpiece. f_equal. f_equal.
+        destruct (Z.eq_dec (me m) q) as [Emq|Emq].
+        * (* an empty match at q > p: after it both sides skip it *)
+          replace (me m =? q) with true by (symmetry; apply Z.eqb_eq; exact Emq).
+          assert (ms m = q) by lia.
+          destruct G as [|G]; [simpl in HG; lia|].
+          rewrite Emq. rewrite sl_step by lia.
+          rewrite (sticky_of_find q m) by (try lia; exact Ef).
+          replace (ms m =? q) with true by (symmetry; apply Z.eqb_eq; lia). cbv zeta.
+          replace (Z.min (me m) (slen s) =? q) with true by (symmetry; apply Z.eqb_eq; lia).
+          apply (IHk (Z.to_nat (slen s + 1 - (q + 1)))); try lia.
+          right. lia.
+        * replace (me m =? q) with false by (symmetry; apply Z.eqb_neq; exact Emq).
+          apply (IHk (Z.to_nat (slen s + 1 - me m))); try lia.
+          left. split; [reflexivity|left; reflexivity].
+  Qed.
+
+  (** split: the optimised splitter over Go's FindAll list = the generic protocol splitter *)
+  Lemma split_paths_agree : is_ascii s = true -> forall lim,
+    split_fast find fl s RE2 lim = split_generic find fl s lim.
+  Proof.
+    intros Hasc lim. unfold split_fast, split_generic.
+    assert (Hl : find_all find fl s RE2 0 (-1) false = re2 (all_fuel s) 0 (-1) (slen s + 1)).
+    { unfold find_all. simpl. rewrite Hasc. reflexivity. }
+    rewrite Hl. clear Hl.
+    assert (Hs : 0 <= slen s) by (unfold slen; lia).
+    assert (Hmain : (if slen s =? 0
+                     then RL (match re2 (all_fuel s) 0 (-1) (slen s + 1) with [] => [Some s] | _ => [] end)
+                     else RL (take_lim lim (fastl (re2 (all_fuel s) 0 (-1) (slen s + 1)) 0))) =
+                    (if slen s =? 0
+                     then RL (match sticky_at find s 0 with None => [Some s] | Some _ => [] end)
+                     else RL (take_lim lim (sl (split_fuel s) 0 0)))).
+    { destruct (slen s =? 0) eqn:E0.
+      - apply Z.eqb_eq in E0. unfold all_fuel. rewrite re2_step by lia.
+        destruct (find s 0) as [m|] eqn:Ef.
+        + destruct (Hfind 0 m ltac:(lia) Ef) as [H1 [H2 H3]].
+          rewrite (sticky_of_find 0 m) by (try lia; exact Ef).
+          replace (ms m =? 0) with true by (symmetry; apply Z.eqb_eq; lia).
+          replace (ms m =? -1) with false by (symmetry; apply Z.eqb_neq; lia). rewrite andb_false_r. reflexivity.
+        + rewrite (sticky_none_of_find_none 0 Ef). reflexivity.
+      - apply Z.eqb_neq in E0. f_equal. f_equal.
+        apply (split_core (Z.to_nat (slen s + 1 - 0)) 0 0 (-1)); try lia.
+        + left. split; [reflexivity|right; split; reflexivity].
+        + unfold all_fuel, slen. lia.
+        + unfold split_fuel, slen. lia. }
+    destruct lim as [z|]; [destruct z|]; try exact Hmain. reflexivity.
+  Qed.
+End Split.
+
+Lemma split_paths_agree_wf : forall (find : str -> Z -> option mres) (fl : flags) (s : str) ncap names,
+  fu fl = false -> is_ascii s = true ->
+  (forall p m, 0 <= p <= slen s -> find s p = Some m -> match_wf (fu fl) ncap names s p m = true) ->
+  (forall p m q, 0 <= p <= slen s -> find s p = Some m -> p <= q <= ms m -> find s q = Some m) ->
+  (forall p q, 0 <= p <= slen s -> find s p = None -> p <= q <= slen s -> find s q = None) ->
+  forall lim, split_fast find fl s RE2 lim = split_generic find fl s lim.
+Proof.
+  intros find fl s ncap names Hu Hasc Hwf Hsame Hnone.
+  apply (split_paths_agree find fl s Hu (is_ascii_advance s Hasc)); try assumption.
+  intros p m Hp Hf.
+  assert (Hb : fu fl = true -> is_boundary s p = true) by (intro H; rewrite Hu in H; discriminate).
+  destruct (wf_engine_ok find fl ncap names s Hwf p m Hp Hb Hf) as [H1 [H2 [H3 _]]].
+  repeat split; assumption.
+Qed.
+
+Lemma find_astar_scan :
+  (forall p m q, 0 <= p <= slen s_baac -> find_astar s_baac p = Some m -> p <= q <= ms m -> find_astar s_baac q = Some m) /\
+  (forall p q, 0 <= p <= slen s_baac -> find_astar s_baac p = None -> p <= q <= slen s_baac -> find_astar s_baac q = None).
+Proof.
+  split.
+  - intros p m q Hp H Hq. unfold slen in Hp. simpl in Hp.
+    assert (Hc : p = 0 \/ p = 1 \/ p = 2 \/ p = 3 \/ p = 4) by lia.
+    destruct Hc as [E|[E|[E|[E|E]]]]; subst p; inversion H; subst; simpl in Hq;
+      (assert (Hq' : q = 0 \/ q = 1 \/ q = 2 \/ q = 3 \/ q = 4) by lia);
+      destruct Hq' as [E|[E|[E|[E|E]]]]; subst q; try lia; reflexivity.
+  - intros p q Hp H Hq. unfold slen in Hp. simpl in Hp.
+    assert (Hc : p = 0 \/ p = 1 \/ p = 2 \/ p = 3 \/ p = 4) by lia.
+    destruct Hc as [E|[E|[E|[E|E]]]]; subst p; discriminate.
+Qed.
